@@ -4,12 +4,16 @@ package ls
 import (
 	"bytes"
 	"context"
+	"encoding/json"
 	"fmt"
 	"io"
 	"log/slog"
 	"net/http"
 	"net/http/httptest"
 	"os"
+	"path/filepath"
+	"regexp"
+	"sort"
 	"strings"
 	"sync"
 
@@ -117,4 +121,67 @@ func URL(parts []string, asset, file string, nowMS int64) string {
 	b.WriteString(file)
 	fmt.Fprintf(&b, "?nowMS=%d", nowMS)
 	return b.String()
+}
+
+var (
+	drmOnce sync.Once
+	drmFile string
+)
+
+// DrmConfigFile returns a DRM configuration made of the repository's test packages plus packages derived from the one-key
+// CPIX document: the same key under scheme cenc ("VERIF-1-key-cenc"), and both schemes without the optional explicitIV
+// attribute ("VERIF-1-key-cbcs-noiv", "VERIF-1-key-cenc-noiv"). The files live in a per-process temporary directory.
+func DrmConfigFile() string {
+	drmOnce.Do(func() {
+		src := RepoRoot() + "/pkg/drm/testdata"
+		dir, err := os.MkdirTemp("", "drmcfg")
+		if err != nil {
+			panic(err)
+		}
+		must := func(err error) {
+			if err != nil {
+				panic(err)
+			}
+		}
+		cfgData, err := os.ReadFile(filepath.Join(src, "drm_config_test.json"))
+		must(err)
+		var cfg struct {
+			Version  string                   `json:"version"`
+			Packages []map[string]interface{} `json:"packages"`
+		}
+		must(json.Unmarshal(cfgData, &cfg))
+		for _, f := range []string{"cpix_1key_cbcs_test.xml", "cpix_2keys_cbcs_test.xml"} {
+			b, err := os.ReadFile(filepath.Join(src, f))
+			must(err)
+			must(os.WriteFile(filepath.Join(dir, f), b, 0o644))
+		}
+		one, err := os.ReadFile(filepath.Join(src, "cpix_1key_cbcs_test.xml"))
+		must(err)
+		ivRe := regexp.MustCompile(` explicitIV="[^"]*"`)
+		variants := map[string]string{
+			"VERIF-1-key-cenc":      strings.ReplaceAll(string(one), `commonEncryptionScheme="cbcs"`, `commonEncryptionScheme="cenc"`),
+			"VERIF-1-key-cbcs-noiv": ivRe.ReplaceAllString(string(one), ""),
+			"VERIF-1-key-cenc-noiv": ivRe.ReplaceAllString(strings.ReplaceAll(string(one), `commonEncryptionScheme="cbcs"`, `commonEncryptionScheme="cenc"`), ""),
+		}
+		names := make([]string, 0, len(variants))
+		for n := range variants {
+			names = append(names, n)
+		}
+		sort.Strings(names)
+		for _, n := range names {
+			file := "cpix_" + strings.ToLower(n) + ".xml"
+			must(os.WriteFile(filepath.Join(dir, file), []byte(variants[n]), 0o644))
+			p := map[string]interface{}{}
+			for k, v := range cfg.Packages[0] {
+				p[k] = v
+			}
+			p["name"], p["cpixFile"], p["desc"] = n, file, "derived by the verification harness from the one-key test package"
+			cfg.Packages = append(cfg.Packages, p)
+		}
+		out, err := json.MarshalIndent(cfg, "", "  ")
+		must(err)
+		drmFile = filepath.Join(dir, "drm_config.json")
+		must(os.WriteFile(drmFile, out, 0o644))
+	})
+	return drmFile
 }
